@@ -6,16 +6,16 @@ PROP = dict(
     engine="hist",
     technique="exhaustive exploration of call histories on real objects: all 2^(k-1) framings of a k-granule stream, all (prefix, frame) pairs of "
               "a longer stream, all interleavings of 2-3 instances; every history replayed on a fresh object and compared with the one-call output",
-    claim="for ~330 configurations of the 20 stateful processors and 4 data letters (dense LCG, impulse train, step, 180 dB click in low-level noise), every composition of a k-granule stream (k = 11 quick, 14 "
+    claim="for ~330 configurations of the 20 stateful processors and 5 data letters (dense LCG, impulse train, step, 180 dB click in low-level noise, loud burst followed by a quiet passage), every composition of a k-granule stream (k = 11 quick, 14 "
           "thorough), every (prefix, next-frame) pair of a 40/96-granule stream and every interleaving of 2 (and 3) instances with 3 frames each is "
           "executed on the implementation; outputs must concatenate to the one-call output (same length, |delta| <= 1e-9 max|y|) and instances "
           "must reproduce their solo runs bit for bit; for decimating processors frames of a non-documented length interleaved with valid frames must be rejected and leave the object unchanged (mode reject). Exhaustive within these bounds.",
-    note="frame contents come from four fixed letters (dense LCG, impulse train, step, click); a boundary defect that needs special sample values "
+    note="frame contents come from five fixed letters (dense LCG, impulse train, step, click, burst+quiet); a boundary defect that needs special sample values "
          "beyond these is not excluded. Private state is hashed only to count canonical states (evidence), never to raise an alarm.",
     rule="case = one framing history (list of frame sizes) of one configuration and letter, replayed on a fresh object; non-trivial = more than "
          "one frame; states = distinct (configuration, letter, prefix length, private-state hash) after each frame; transitions = process() calls "
          "executed; traces_validated_against_impl = histories executed",
-    bounds=dict(quick="comp: k = 11 (1024 framings) x 4 letters x all configurations; pair: 40 granules, all ~1600 (p,f,tail) histories, light "
+    bounds=dict(quick="comp: k = 11 (1024 framings) x 5 letters x all configurations; pair: 40 granules, all ~1600 (p,f,tail) histories, light "
                       "configurations; iso: 2 instances x 20 interleavings all configurations, 3 instances x 1680 for every 2nd",
                 thorough="comp: k = 14 (8192 framings); pair: 96 granules (~9000 histories) for all configurations; iso: 3 instances for all"),
     deadline=dict(quick=150, thorough=1500),
